@@ -18,7 +18,7 @@ RULE = ("random configurations (MAC; self-IP set absent or 1-6 mixed v4/v6 addre
         "answerable contents (ARP request, echo v4/v6, NS, SYN, UDP STUN with and without CHANGE-REQUEST (change-ip / change-port), DNS) sent to: every member of the authorised "
         "MAC set, every single-bit flip of each member, unmasked RFC 1112 mappings, solicited-node MACs of foreign "
         "addresses, random MACs; destination IPs in / one bit off / outside the self-IP set and multicast; sources in "
-        "/ one bit off the deny set; every EtherType; answerable content behind 802.1Q/802.1ad/MPLS/PPPoE encapsulation; multicast MAC mappings of the other address family; every IP protocol number (v4 and v6). Non-trivial = out-of-scope "
+        "/ one bit off the deny set; every EtherType; answerable content behind 802.1Q/802.1ad/MPLS/PPPoE encapsulation; multicast MAC mappings of the other address family; answerable content behind IPv6 extension headers; sources incl. the unspecified / loopback / group addresses; every IP protocol number (v4 and v6). Non-trivial = out-of-scope "
         "(or reply-source-constrained) case whose in-scope control twin was answered under the permissive "
         "configuration; distinct = distinct (scope reason, template, configuration, frame).")
 ASSUME = ["'handled IP address' = member of the configured self-IP set (any address when the set is absent)",
@@ -133,7 +133,9 @@ def build_cases(ctx, cfg, sweep):
 
     def clean_src(v6):
         while True:
-            c = gen.rnd_ip6(rng) if v6 else gen.rnd_ip4(rng)
+            # also the unspecified address, loopback, group addresses ... as sources: what is advertised / used as reply
+            # source must come from the self-IP set whoever asks
+            c = gen.rnd_ip6(rng, special=0.15) if v6 else gen.rnd_ip4(rng, special=0.1)
             if not cfg.deny or c not in cfg.deny:
                 return c
 
@@ -195,6 +197,25 @@ def build_cases(ctx, cfg, sweep):
         good = fn(cfg.mac, cm, clean_src(v6), rng.choice(S) if S else (gen.rnd_ip6(rng) if v6 else gen.rnd_ip4(rng)))
         for f in gen.encapsulated(rng, good):
             cases.append(("sweep/encap", f, good))
+    # 4b. IPv6 extension headers are not implemented: next header 0 / 43 / 60 / 44 / 51 is an unsupported protocol even when a
+    #     well-formed extension header is followed by answerable content
+    for nm, fn in t6:
+        S = s6
+        good = fn(cfg.mac, cm, clean_src(True), rng.choice(S) if S else gen.rnd_ip6(rng))
+        real_nh, l4 = good[14 + 6], good[14 + 40:]
+        for nh in (0, 43, 60, 44, 51):
+            if nh == 44:
+                ext = bytes([real_nh, 0, 0, 0]) + struct.pack("!I", rng.getrandbits(32))               # atomic fragment
+            elif nh == 43:
+                ext = bytes([real_nh, 0, rng.choice([0, 2, 4]), 0, 0, 0, 0, 0])                         # routing, segments left 0
+            elif nh == 51:
+                ext = bytes([real_nh, 1, 0, 0]) + bytes(8)                                              # authentication header
+            else:
+                ext = bytes([real_nh, 0, 1, 4, 0, 0, 0, 0])                                             # PadN
+            ip = bytearray(good[14:14 + 40])
+            ip[6] = nh
+            ip[4:6] = struct.pack("!H", len(ext) + len(l4))
+            cases.append(("sweep/exthdr", good[:14] + bytes(ip) + ext + l4, good))
     # 5. EtherType / protocol-number sweeps (answerable content under a wrong number)
     if sweep:
         sip4 = rng.choice(s4) if s4 else gen.rnd_ip4(rng)
